@@ -251,6 +251,7 @@ func (m *PluginManager) Install(ctx context.Context, name string, constraint *se
 	if err := publishPluginDir(newPluginDir, finalPluginDir); err != nil {
 		return fmt.Errorf("couldn't move plugin into place: %w", err)
 	}
+	verifcrash.Point("install/after-publish")
 
 	if err := registerFileExtensions(plugin.Name, plugin.FileExtensions); err != nil {
 		return fmt.Errorf("couldn't register file extensions: %w", err)
@@ -282,6 +283,7 @@ func publishPluginDir(stagingDir, finalDir string) error {
 		if info.IsDir() {
 			return os.MkdirAll(filepath.Join(finalDir, rel), os.ModePerm)
 		}
+		verifcrash.Point("install/publish-file")
 		return os.Rename(path, filepath.Join(finalDir, rel))
 	})
 	if err != nil {
